@@ -1,5 +1,5 @@
 import z3
-from pyvc import BYTES
+from .engine import BYTES, zsum
 _arr = {}
 def base_elem(c, idx):
     name = 'elem_' + str(c)
@@ -44,7 +44,7 @@ def base_len(c):
 def lower_len(t):
     k = t.decl().kind()
     if k == z3.Z3_OP_SEQ_CONCAT:
-        return z3.Sum([lower_len(p) for p in t.children()])
+        return zsum([lower_len(p) for p in t.children()])
     if k == z3.Z3_OP_SEQ_EXTRACT:
         s, a, n = t.children()
         a, n = lower_term(a), lower_term(n)
@@ -109,7 +109,7 @@ def lower_term(t):
     new = [lower_term(c) for c in ch]
     if k == z3.Z3_OP_AND: return z3.And(*new)
     if k == z3.Z3_OP_OR: return z3.Or(*new)
-    if k == z3.Z3_OP_ADD: return z3.Sum(new)
+    if k == z3.Z3_OP_ADD: return zsum(new)
     if k == z3.Z3_OP_MUL:
         r = new[0]
         for x in new[1:]: r = r * x
